@@ -1,6 +1,8 @@
 """copy confirmed sub-agent mutants into /verif/seeded/<Cnn>-m<k>/ (patch.diff, demo.py, meta.json) from /tmp/seed"""
 import glob, json, os, shutil, sys
-for f in sorted(glob.glob("/tmp/seed/eval_C*_*.json")):
+BASE = os.environ.get("SEED_DIR", "/tmp/seed")
+TAG = os.environ.get("SEED_TAG", "m")
+for f in sorted(glob.glob(BASE + "/eval_C*_*.json")):
     try:
         r = json.load(open(f))
     except Exception:
@@ -8,8 +10,8 @@ for f in sorted(glob.glob("/tmp/seed/eval_C*_*.json")):
     if not r.get("confirmed"):
         print("NOT CONFIRMED", f); continue
     pid, k = r["property"], r["mutant"]
-    src = "/tmp/seed/%s/out" % pid
-    dst = "/verif/seeded/%s-m%s" % (pid, k)
+    src = "%s/%s/out" % (BASE, pid)
+    dst = "/verif/seeded/%s-%s%s" % (pid, TAG, k)
     os.makedirs(dst, exist_ok=True)
     shutil.copy(os.path.join(src, "m%s.diff" % k), os.path.join(dst, "patch.diff"))
     shutil.copy(os.path.join(src, "m%s_demo.py" % k), os.path.join(dst, "demo.py"))
